@@ -127,6 +127,26 @@ def slow_cases():
             yield dict(kind="game", game=g, prune=prune, allow_slow=True)
 
 
+def rare_jackpot_cases():
+    """Planted: two lotteries of equal winning chance (1/2, so both actions stay permitted); one of them pays
+    2^30 on a branch of probability 2^-22 ... 2^-40.  Conditioned on winning it is worth several hundred, the
+    other one 100: the rare branch decides the final strategy (all probabilities dyadic: sums are exact)."""
+    for k, jack in ((22, 2 ** 30), (30, 2 ** 38), (40, 2 ** 48)):
+        tiny = 2.0 ** -k
+        for owner in (P1, P2):
+            for swap in (False, True):
+                for pos in (0, 1, 2):
+                    row = [(0.5 - tiny, 4), (0.5, 7)]
+                    row.insert(pos, (tiny, 3))
+                    acts = [("a", 1), ("b", 2)]
+                    tl = [list(reversed(acts)) if swap else acts, row, [(0.5, 5), (0.5, 7)], [(1, 6)], [(1, 6)], [(1, 6)],
+                          [(1, 6)], [(1, 7)]]
+                    g = dict(rewards=[0, 0, 0, jack, 1, 100, 0, 0], players=[owner] + [PR] * 7, transition_list=tl,
+                             final_states=[6])
+                    for prune in (True, False):
+                        yield dict(kind="game", game=g, prune=prune)
+
+
 def stale_cases():
     for g in games.stale_zero_games():
         for prune in (True, False):
@@ -137,6 +157,8 @@ def phases(tier):
     return [
         Phase("stale-zero-player-one-states", enum=stale_cases,
               note="a Player 1 state reports exactly 0 while its successors report masses around the 6th decimal"),
+        Phase("rare-but-valuable-branches", enum=rare_jackpot_cases,
+              note="a branch of probability 2^-22 ... 2^-40 that pays 2^30 ... 2^48 decides between two reach-tied lotteries"),
         Phase("slow-rewarded-loops", enum=slow_cases,
               note="reach-tied branches whose rewards only separate after 10^3..10^5 sweeps"),
         Phase("games-exact-sets", strategy=lambda: game_cases(9 if tier == "quick" else 12), examples=(1600, 60000)),
